@@ -424,22 +424,21 @@ Proof.
       * destruct (N.of_nat (length (s_cur (c_sh c) :: g)) =? q_n q); apply Hgo; discriminate.
     + destruct (q_mode q) eqn:M.
       * apply Hsame; [right; reflexivity|reflexivity|discriminate|discriminate].
-      * destruct g; apply Hsame; try discriminate; try reflexivity; [right; reflexivity|left; reflexivity].
-      * apply Hsame; [left; reflexivity|reflexivity|discriminate|].
-        intros q' b' k' H1 H2. injection H1 as <- _ _. rewrite M in H2. discriminate.
+      * apply Hsame; [left; reflexivity|reflexivity|discriminate|discriminate].
+      * apply Hsame; [left; reflexivity|reflexivity|discriminate|discriminate].
 Qed.
 
 Lemma iD_setf c t q b g :
   IInvA e L c -> IInvD c -> In t L -> t_pc (c_pool c t) = PSetF q b g -> IInvD (step e c t).
 Proof.
   intros A I Hin Hpc. rewrite (istep_setf e c t q b g Hpc).
-  destruct (a_wf e L c A t) as (Hok & _ & _). unfold ipc_ok in Hok. rewrite Hpc in Hok. destruct Hok as (_ & _ & Hg). subst g.
-  assert (Hgo : IInvD (commit c t (with_f (c_sh c) true) (set_pc (c_pool c t) (PPub q b [])) (LAtom t SF AStore 1 0 (o_setf q)) [])).
+  assert (Hgo : IInvD (commit c t (with_f (c_sh c) true) (set_pc (c_pool c t) (PPub q b g)) (LAtom t SF AStore 1 0 (o_setf q)) [])).
   { apply iD_silent; try assumption; cbn [with_f s_f s_cur s_c]; auto.
     - rewrite Hpc; discriminate.
     - lia.
     - intros hm H; discriminate H.
     - apply zr_keep; try assumption; cbn [with_f s_f s_cur s_c]; auto; try lia.
+      + right. rewrite Hpc. reflexivity.
       + rewrite Hpc. cbn [before_gate]. discriminate.
       + intros b' n Hb. left. rewrite Hpc. exact Hb. }
   destruct (q_mode q) eqn:M.
